@@ -27,6 +27,8 @@ type UDFNode struct {
 	wg      sync.WaitGroup
 	mu      sync.Mutex
 	stopped bool
+	// opened is set once udf.Open has returned, a UDF that is not open cannot be aborted.
+	opened bool
 }
 
 // Create a new UDFNode that sends incoming data to child udf
@@ -60,7 +62,7 @@ func (n *UDFNode) stopUDF() {
 	defer n.mu.Unlock()
 	if !n.stopped {
 		n.stopped = true
-		if n.udf != nil {
+		if n.udf != nil && n.opened {
 			n.udf.Abort(errNodeAborted)
 		}
 	}
@@ -79,6 +81,15 @@ func (n *UDFNode) runUDF(snapshot []byte) (err error) {
 
 	if err := n.udf.Open(); err != nil {
 		return err
+	}
+	n.mu.Lock()
+	n.opened = true
+	stopped := n.stopped
+	n.mu.Unlock()
+	if stopped {
+		// The node was stopped while the UDF was being opened.
+		n.udf.Abort(errNodeAborted)
+		return nil
 	}
 	if err := n.udf.Init(n.u.Options); err != nil {
 		return err
